@@ -71,4 +71,10 @@ CHECKS.update({
   "text": "every sequence to depth 3 (quick, from 2 start states) / 4 (thorough, 4 start states) over a 34-symbol alphabet of nonce_gen / nonce_gen_counter / partial_sign calls with valid and invalid arguments on two nonce objects, plus 200 / 20000 random histories of length 50; after every call the nonce object must be all-zero unless a generation succeeded, a failing call must not write a signature, successful signatures equal the BIP-327 value, and a ledger shows at most one signature per generated nonce.",
   "note": "Trusted: the automaton in props/c13.py; ref/musig.py. Copies of a live nonce made by the caller are outside the property."},
 })
+CHECKS.update({
+ "C19": {
+  "technique": "runtime monitoring: sanitizer build + independent folding verifier; allocation monitor on generator lists; scratch-size sweep",
+  "text": "norm-argument prove->verify for all 49 shapes {1..64}^2 (quick skips about half of the two largest) with random / zero / boundary vectors, prover with and without scratch, verifier with 8 scratch sizes (fail closed, never a wrong accept), verification compared with a round-by-round folding model on honest proofs and on bit flips, sign bytes, infinity encodings, scalars >= order incl. n+order / l+order for prover-chosen small n, l, length / size / generator-count / rho / prefix / commitment edits; generator lists 0..256 compared with the DRBG+SvdW model (prefix property), serialize/parse round trips and malformed lists with malloc/free balance.",
+  "note": "Trusted: ref/bppp.py, ref/zkp.py; shim wrappers around the internal prove/verify routines mirror tests_impl.h."},
+})
 NOT_APPLICABLE = {}
